@@ -133,6 +133,16 @@ def check_C05(ctx):
             src = b"\n".join(render_block(b) for b in blocks) + b"\nbind srv" + (b":all -> slice\n" if slice_ else b" -> struct\n")
             cases.append(dict(id="deep%d%s" % (k, "s" if slice_ else ""), type=dict(k="slice", elem=deep) if slice_ else deep, mode="ptr",
                               bkind="slice" if slice_ else "struct", blocks=blocks, src=src, prev=3, prefill=(k == 1)))
+    # a nested NAMED struct type must match the nested block's type too; nested block names containing dots
+    mism = T(fld("Name", STR), fld("Port", INT), fld("Limits", dict(k="named", name="Other")))
+    okn = T(fld("Name", STR), fld("Up", T(fld("Name", STR), fld("X", INT))))
+    for k, (ty, blk) in enumerate([
+            (mism, dict(t="srv", n="alpha", f=[["port", "i8080"], ["limits.hard", dict(t="limits", n="hard", f=[["solo", "b1"]])]])),
+            (okn, dict(t="srv", n="a", f=[["up.db.example.com", dict(t="up", n="db.example.com", f=[["x", "i1"]])]])),
+            (okn, dict(t="srv", n="b", f=[["up.v1.2", dict(t="up", n="v1.2", f=[["x", "i2"]])]])),
+            (okn, dict(t="srv", n="c", f=[["up..hidden", dict(t="up", n=".hidden", f=[["x", "i3"]])]]))]):
+        src = render_block(blk) + b"\nbind srv -> struct\n"
+        cases.append(dict(id="nest%d" % k, type=ty, mode="ptr", bkind="struct", blocks=[blk], src=src, prev=0, prefill=False))
     # tags must match exactly while names match folded: a tag that folds onto another field's name, in every spelling
     tagged = T(fld("Name", STR), fld("Addr", STR, tag="host_name"), fld("HostName", STR), fld("Backup", STR), fld("Primary", STR, tag="Backup"),
                fld("Max_Conns", INT, tag="max"), fld("Max", INT))
